@@ -9,6 +9,7 @@ import AuthProofs.StateInventory
 import AuthProofs.Ladder
 import AuthProofs.Splitter
 import AuthProofs.CodeEquiv
+import AuthProofs.CodeEquivCheck
 import AuthModel.Generated.Facts
 namespace AuthProps.C15
 open AuthModel AuthModel.Oidc
@@ -56,6 +57,23 @@ theorem code_trigger_path_never_panics (env : Go.Env) (rules : List Pb.TriggerRu
 /-- NO HIDDEN STATE: the model treats a check as a function of (configuration, request, store answers, clock, IdP and key-source answers, entropy); that is a faithful reading of the code only if nothing else survives from one check to the next. Regenerated on every run: every package-level variable and struct field of internal/server, internal/authz, internal/http, internal/oidc is the classified expectation, and handlers, filter, HTTP helpers and the Redis store own no mutable state (no verdict cache, handler cache, object pool, single-flight group or per-process copy of session data). -/
 theorem no_hidden_state : CheckPathInventory := check_path_inventory
 
+/-- `ExtAuthZFilter.Check` AS TRANSLATED FROM THE GO SOURCE on this run returns - a verdict or an error, never a panic -
+    for EVERY request (absent parts, arbitrary bytes), provided the filter object carries a loaded configuration (no nil
+    messages in its repeated fields, every filter a mock or an OIDC filter: C17) and the handlers behave as the two
+    handlers of the code base do (an error, or a response whose status is set). The partial operations of the
+    translation that this discharges: the selections through `e.cfg`, `c.Match`, `c.Filters`, `f.Type`, the call through
+    the interface value `h` (nil when the filter type is unknown), and `resp.Status.Code`. -/
+theorem code_check_never_panics (env : Go.Env) (h : Pb.Handlers) (hw : HandlersWF h) (e : Pb.ExtAuthZFilter)
+    (req : Pb.CheckRequest) (he : e.isNil = false) (hc : e.cfg.isNil = false)
+    (hcs : ∀ c ∈ e.cfg.Chains, c.isNil = false ∧ FiltersWF c.Filters) :
+    ∃ v, Code.Check env h e req = .ok v := by
+  rw [code_check]; exact checkSpec_ok env h hw e req he hc hcs
+
+/-- and the hypothesis on the filter type is needed: a filter whose type `Check` does not know leaves the handler nil,
+    and the call through it is a nil dereference (kernel-evaluated on the translated code) -/
+example : Code.Check {} { newMock := fun _ => {}, newOIDC := fun _ => ({}, {}) }
+    { cfg := { Chains := [{ Filters := [{ Type_ := .Other }] }] } } {} = .error "invalid memory address or nil pointer dereference" := by decide
+
 end AuthProps.C15
 
 #print axioms AuthProps.C15.verdict_wellformed
@@ -66,3 +84,4 @@ end AuthProps.C15
 #print axioms AuthProps.C15.no_explicit_panics
 #print axioms AuthProps.C15.code_trigger_path_never_panics
 #print axioms AuthProps.C15.no_hidden_state
+#print axioms AuthProps.C15.code_check_never_panics
